@@ -1,7 +1,11 @@
 #!/bin/sh
-# tryseed.sh <patch> <prop> [tier]: apply a seeded change to /repo, run the check, undo it
+# tryseed.sh <patch> <prop> [tier]: run a check against a shadow copy of /repo with a seeded change
+# applied (the working tree of /repo itself is left alone, so concurrent checks are not disturbed).
+# Equivalent to: git -C /repo apply <patch>; ./check <prop> <tier>; git -C /repo checkout -- .
 set -u
-git -C /repo apply "$1" || { echo "patch does not apply"; exit 3; }
-VERIF_NO_EVIDENCE=1 /verif/check "$2" "${3:-quick}" 2>&1 | grep -v "^goroutine\|^\s\s\s\s" | cut -c1-600 | tail -${LINES_OUT:-12}
-git -C /repo checkout -- . 
-git -C /repo status --short | head -3
+SH=/verif/.build/seedshadow-$$
+mkdir -p /verif/.build; rm -rf "$SH"
+rsync -a --exclude .git /repo/ "$SH"/
+patch -p1 -s -d "$SH" -i "$(realpath "$1")" || { echo "patch does not apply"; rm -rf "$SH"; exit 3; }
+VERIF_REPO="$SH" VERIF_NO_EVIDENCE=1 /verif/check "$2" "${3:-quick}" 2>&1 | grep -v "^goroutine\|^\s\s\s\s" | cut -c1-600 | tail -${LINES_OUT:-12}
+rm -rf "$SH"
